@@ -9,6 +9,12 @@ pub mod common;
 #[cfg(kani)]
 pub mod kmer_ops;
 #[cfg(kani)]
+pub mod exts_ops;
+#[cfg(kani)]
+pub mod lmer_ops;
+#[cfg(kani)]
+pub mod dnastring_ops;
+#[cfg(kani)]
 pub mod stubs;
 #[cfg(kani)]
 pub mod gen;
